@@ -411,6 +411,9 @@ pub enum Case {
     Str { pool: Vec<String>, ops: Vec<SOp> },
     Zo { pool: Vec<String>, picks: Vec<u16>, ctor: u8, ops: Vec<SOp> },
     CopyShorter { n: usize, m: usize },
+    /// FixedLenStrVec at its 16 MiB arena limit: strings of `unit` bytes until fewer than
+    /// `slack` bytes remain, then strings of the `tail` lengths (0..=255)
+    ArenaLimit { unit: u8, slack: u16, tail: Vec<u8> },
 }
 
 // ---------------------------------------------------------------------------------------
@@ -464,7 +467,18 @@ fn vop(kinds: Vec<(u32, VK)>, big: usize) -> BoxedStrategy<VOp> {
 }
 
 fn vec_case(kinds: Vec<(u32, VK)>, big: usize, max_ops: usize, caps: BoxedStrategy<usize>) -> BoxedStrategy<Case> {
-    (caps, proptest::collection::vec(vop(kinds, big), 0..max_ops)).prop_map(|(cap, ops)| Case::Vec { cap, ops }).boxed()
+    let plain = (caps.clone(), proptest::collection::vec(vop(kinds.clone(), big), 0..max_ops)).prop_map(|(cap, ops)| Case::Vec { cap, ops });
+    if !kinds.iter().any(|k| matches!(k.1, VK::ResizeWith)) {
+        return plain.boxed();
+    }
+    // one history in 60 starts from 8 190..70 000 distinct elements: element moves (insert,
+    // remove, growth, clone) of more than 64 KiB, beyond any staging buffer or chunk size
+    let n = prop_oneof![proptest::sample::select(vec![8_190usize, 8_192, 8_193, 16_385, 65_536, 65_537]), 9_000usize..70_000];
+    let huge = (caps, n, proptest::collection::vec(vop(kinds, big), 1..max_ops.clamp(2, 16))).prop_map(|(cap, n, mut ops)| {
+        ops.insert(0, VOp::ResizeWith(n));
+        Case::Vec { cap, ops }
+    });
+    prop_oneof![59 => plain, 1 => huge].boxed()
 }
 
 fn qop(bulk: bool, big: usize) -> BoxedStrategy<QOp> {
@@ -1523,6 +1537,64 @@ fn run_bumpvec<T: Elem>(ctx: &mut Ctx, cap: usize, ops: &[VOp]) {
         ctx.label("capacity_reached_and_refused");
     }
     ctx.label(format!("ops_{}", match fl.ops { 0 => "0", 1..=9 => "1-9", 10..=29 => "10-29", _ => "30+" }));
+}
+
+/// Every push is either refused (and then changes nothing) or stores exactly the string; where
+/// the limit lies is the implementation's business, what happens around it is not.
+fn run_arena_limit(ctx: &mut Ctx, unit: u8, slack: u16, tail: &[u8]) {
+    const LIMIT: usize = 1 << 24;
+    let unit = unit.max(1) as usize;
+    let mut v: FixedLenStrVec<255> = FixedLenStrVec::new();
+    let text = |i: usize, n: usize| -> String { (0..n).map(|k| (b'a' + ((i * 7 + k * 3) % 26) as u8) as char).collect() };
+    let mut stored: Vec<(usize, usize)> = vec![]; // (seed, length) of every accepted string
+    let mut bytes = 0usize;
+    let mut i = 0usize;
+    // bulk phase: stop `slack` bytes short of the limit (the last unit string is shortened to fit)
+    while bytes + (slack as usize) < LIMIT {
+        let n = unit.min(LIMIT - slack as usize - bytes);
+        let s = text(i, n);
+        match ctx.no_panic("push", || v.push(&s)) {
+            Some(Ok(())) => {
+                stored.push((i, n));
+                bytes += n;
+            }
+            Some(Err(_)) => break,
+            None => return,
+        }
+        i += 1;
+    }
+    ctx.label(format!("arena_bytes_before_tail={}", if bytes == LIMIT { "limit" } else if bytes + 256 >= LIMIT { "limit-256..limit" } else { "below" }));
+    let mut refused = 0;
+    for (k, &n) in tail.iter().enumerate() {
+        let s = text(1_000_000 + k, n as usize);
+        let before = v.len();
+        match ctx.no_panic("push", || v.push(&s)) {
+            Some(Ok(())) => {
+                stored.push((1_000_000 + k, n as usize));
+                ctx.eq("push_readback", "at_arena_limit", &v.get(v.len() - 1).map(|x| x.to_string()), &Some(s.clone()));
+            }
+            Some(Err(_)) => {
+                refused += 1;
+                ctx.eq("len", "after_refused_push", &v.len(), &before);
+            }
+            None => return,
+        }
+    }
+    if refused > 0 {
+        ctx.nontrivial();
+        ctx.label("arena_limit_refused_some");
+    }
+    ctx.eq("len", "arena_limit", &v.len(), &stored.len());
+    // read back: everything accepted in the tail phase, the last 300 of the bulk phase, a sample of the rest
+    let n = stored.len();
+    for (j, &(seed, len)) in stored.iter().enumerate() {
+        if j + 400 >= n || j % 997 == 0 {
+            let want = text(seed, len);
+            if !ctx.eq("get", "arena_limit", &v.get(j).map(|x| x.to_string()), &Some(want)) {
+                break;
+            }
+        }
+    }
 }
 
 fn run_mmapvec<T: Elem + Copy>(ctx: &mut Ctx, cap: usize, ops: &[VOp]) {
@@ -2610,6 +2682,13 @@ impl Prop for P {
         v.push(Plan::new("bumpvec_tracked", n / 2, b(n / 2), vec_case(<BumpVec<'static, Tracked> as VecApi<Tracked>>::kinds(), big, l, (1usize..=12).boxed())));
         v.push(Plan::new("mmapvec_u64", n / 2, b(n / 2), vec_case(<MmapVec<u64> as VecApi<u64>>::kinds(), big, l / 2, caps_small())));
         v.push(Plan::new("mmapvec_u8", n / 2, b(n / 2), vec_case(<MmapVec<u8> as VecApi<u8>>::kinds(), q(200, 600), l / 2, caps_small())));
+        v.push(Plan::new(
+            "fixed_len_str_vec_arena_limit",
+            q(24, 300),
+            b(q(24, 300)) / 4,
+            (proptest::sample::select(vec![255u8, 128, 254, 64, 100]), prop_oneof![Just(0u16), Just(1u16), 0u16..600], proptest::collection::vec(prop_oneof![3 => Just(0u8), 2 => 1u8..4, 2 => any::<u8>()], 1..24))
+                .prop_map(|(unit, slack, tail)| Case::ArenaLimit { unit, slack, tail }),
+        ));
         v.push(Plan::new("fastvec_copy_shorter", q(60, 400), b(q(60, 400)), (2usize..40, 1usize..40).prop_map(|(n, m)| Case::CopyShorter { n, m })));
         for nn in [1usize, 2, 3, 4, 5, 6, 7, 12, 16] {
             v.push(Plan::new(
@@ -2667,6 +2746,7 @@ impl Prop for P {
             ("mmapvec_u64", Case::Vec { cap, ops }) => run_mmapvec::<u64>(ctx, cap, &ops),
             ("mmapvec_u8", Case::Vec { cap, ops }) => run_mmapvec::<u8>(ctx, cap, &ops),
             ("fastvec_copy_shorter", Case::CopyShorter { n, m }) => run_copy_shorter(ctx, n, m),
+            ("fixed_len_str_vec_arena_limit", Case::ArenaLimit { unit, slack, tail }) => run_arena_limit(ctx, unit, slack, &tail),
             ("fixedq_n1", Case::Queue { ops, .. }) => run_fixedq::<1>(ctx, &ops),
             ("fixedq_n2", Case::Queue { ops, .. }) => run_fixedq::<2>(ctx, &ops),
             ("fixedq_n3", Case::Queue { ops, .. }) => run_fixedq::<3>(ctx, &ops),
